@@ -758,7 +758,13 @@ def pbkdf2_hmac(digest: bytes, secret: bytes, salt: bytes, rounds: int, keylen=N
     # resolve digest
     digest_info = lookup_hash(digest)
 
-    return hashlib.pbkdf2_hmac(digest_info.name, secret, salt, rounds, keylen)
+    try:
+        return hashlib.pbkdf2_hmac(digest_info.name, secret, salt, rounds, keylen)
+    except OverflowError as err:
+        if rounds > 0x7FFFFFFF:
+            # "iteration value is too great" -- rounds beyond what the C library takes
+            raise ValueError(f"rounds too large: {err}") from None
+        raise
 
 
 PBKDF2_BACKENDS = [
